@@ -41,7 +41,7 @@ def cb_str(f):
 
 
 def cb_auto(f):
-    return "autoincrement:Z%s" % f.strand if f.featuretype == "gene" else "autoincrement:other"
+    return "autoincrement:Z:%s" % f.strand if f.featuretype == "gene" else "autoincrement:other"       # the base itself holds a colon
 
 
 def cb_mixed(f):
